@@ -65,7 +65,7 @@ def c01(tier: str) -> int:
         (CORE_CFGS, C01_CLAUSES, conv.ev_from_data, {'extra_sp': 0 if tier == 'quick' else 1, 'reverse': True}),
         (CLS_CFGS, C01_CLAUSES, conv.ev_from_data, {'extra_sp': 1, 'reverse': True}),
         (SCALAR_CFGS, C01_CLAUSES, conv.ev_from_data, {'extra_sp': 2}),
-    ], extra=_random_stage(C01_CLAUSES, conv.ev_from_data, 4000, 150000))
+    ], extra=_both(_random_stage(C01_CLAUSES, conv.ev_from_data, 4000, 150000), _repo_tests_stage(C01_CLAUSES)))
 
 
 def _grammar_check(pid: str, tier: str, cfgs: dict, owned: set, make_event, *, reverse=False, extra_sp=1,
@@ -242,6 +242,43 @@ def _random_stage(owned: set, maker, quick_n: int, thorough_n: int, child_event=
     return extra
 
 
+def _repo_tests_stage(owned: set):
+    """The repository's own test-suite run under the recording plug-in (harness/recorder.py): every
+    from_data / convert call the tests make is validated against the specification."""
+    def extra(rep, stats):
+        import subprocess
+        import sys
+        out = os.path.join(tlc.workdir('recorder'), 'events.json')
+        env = dict(os.environ, PYTHONPATH=VERIF + os.pathsep + '/repo', PANE_VERIF_RECORD=out, PANE_VERIF_TOKPREFIX='r')
+        p = subprocess.run(['/venv/bin/python', '-m', 'pytest', '-q', '-p', 'no:cacheprovider', '-p', 'harness.recorder',
+                            '--continue-on-collection-errors', 'tests'], cwd='/repo', env=env, capture_output=True, text=True, timeout=900)
+        if not os.path.exists(out):
+            raise tlc.MachineryError('the recording plug-in wrote nothing:\n' + p.stdout[-1500:] + p.stderr[-500:])
+        with open(out) as f:
+            rec = json.load(f)
+        vocab.merge_tokens(rec['texts'], rec['facts'])
+        events = rec['events']
+        bad = engine.validate(events, name=rep.prop.lower() + '-repo-tests') if events else {}
+        rep.validated += len(events)
+        evd = {e['id']: e for e in events}
+        for ident, clauses in bad.items():
+            e = evd[ident]
+            for cl in clauses:
+                if cl in owned:
+                    rep.witness({'clause': cl, 'type_kind': 'repo-test:' + conv.tkind(e['ty']), 'value_kind': conv.vkind(e['val'], e['ty']),
+                                 'outcome': e['out']['k']}, {'event': e, 'source': 'a call made by the repository test-suite'})
+        stats['repository-test-suite'] = {**rec['stats'], 'pytest_tail': p.stdout.strip().splitlines()[-1] if p.stdout.strip() else '',
+                                          'rejected': len(bad)}
+    return extra
+
+
+def _both(*extras):
+    def extra(rep, stats):
+        for x in extras:
+            x(rep, stats)
+    return extra
+
+
 def _validate_plain(rep, events: list, desc: dict, owned: set, label: str):
     """Events without (T, v) structure (no descent): validate, report each rejected one."""
     bad = engine.validate(events, name=label)
@@ -396,11 +433,41 @@ def c10(tier: str) -> int:
     rep.extra['replay'] = {'behaviours_from_tlc_simulation': len(behaviours), 'threaded': stats, 'sequential': st2,
                            'events': len(events), 'rejected': len(bad)}
     _c10_lru(rep, tier)
+    _c10_apalache(rep)
     rep.assumptions += ['CPython address reuse cannot be forced: the replay records real ids (id_reused_for_other_type says how '
                         'often an address came back for another type)',
                         'thread schedules are enforced at the four modelled steps; finer interleavings are excluded by the GIL',
                         'handlers are registered/configured before the first conversion']
     return rep.finish()
+
+
+def _c10_apalache(rep) -> None:
+    """Unbounded histories: the inductive invariant of the repaired cache design (spec/ApaCache.tla)."""
+    import shutil
+    import subprocess
+    import time
+    if shutil.which('apalache-mc') is None:
+        rep.extra['inductive_invariant'] = 'apalache-mc not available: claim stays at bounded model checking'
+        return
+    out = tlc.workdir('apalache')
+    runs = {}
+    for name, args in (('base (CInit => IndInv)', ['--init=CInit', '--length=0']),
+                       ('step (IndInv /\\ CNext => IndInv\')', ['--init=IndInv', '--length=1'])):
+        t0 = time.time()
+        try:
+            p = subprocess.run(['apalache-mc', 'check', *args, '--next=CNext', '--inv=IndInv', f'--out-dir={out}',
+                                os.path.join(SPEC, 'ApaCache.tla')], cwd=out, capture_output=True, text=True, timeout=600)
+            ok = 'EXITCODE: OK' in p.stdout
+            runs[name] = {'discharged': ok, 'wall_s': round(time.time() - t0, 1)}
+            if not ok:
+                if 'The outcome is: Error' in p.stdout:
+                    rep.witness({'clause': 'inductive-invariant', 'type_kind': name, 'value_kind': ''}, {'apalache_tail': p.stdout[-1500:]})
+                else:
+                    runs[name]['note'] = 'apalache did not finish: ' + p.stdout[-300:]
+        except subprocess.TimeoutExpired:
+            runs[name] = {'discharged': False, 'note': 'timeout'}
+    rep.extra['inductive_invariant'] = {'spec': 'spec/ApaCache.tla (3 addresses, 3 type descriptors, 2 handler sets, 2 threads; unbounded histories)',
+                                        'obligations': runs}
 
 
 def _c10_lru(rep, tier: str) -> None:
@@ -479,6 +546,7 @@ def _every(n):
 def c15(tier: str) -> int:
     return _multi_grammar('C15', tier, [
         (NAMES_CFGS, C15_CLAUSES, conv.ev_from_data, {}),
+        (NAMES_CFGS, C15_CLAUSES | {'nondeterministic'}, conv.ev_from_data_custom, {'filter': _accepted_only}),
         (NAMES_CFGS, C15_CLAUSES, conv.ev_roundtrip, {'filter': _accepted_only}),
         (NAMES_CFGS, C15_CLAUSES, conv.ev_tree, {'filter': _every(3)}),
         (CLS_CFGS, C15_CLAUSES, conv.ev_from_data, {}),
